@@ -94,25 +94,25 @@ const c19Icon = "https://icons.terrastruct.com/essentials/004-picture.svg"
 
 // generator knobs; the measurement run and the focused classes set them
 type c19Knobs struct {
-	maxDepth            int
-	pExplicitLeaf       float64
-	pExplicitCont       float64
-	pLabelNear          float64
-	pIcon               float64
-	pContShape          float64
-	pDir                float64
-	pGrid, pSeq         float64
-	pNear, pObjNear     float64
-	pEdgeLabel          float64
-	pSelfLoop           float64
-	p3d                 float64
-	pFont               float64
-	maxKids             int
-	edgeFactor          float64
-	pRootGrid           float64
-	pLongLabel          float64
-	pGridExplicit       float64
-	pGridGap            float64
+	maxDepth        int
+	pExplicitLeaf   float64
+	pExplicitCont   float64
+	pLabelNear      float64
+	pIcon           float64
+	pContShape      float64
+	pDir            float64
+	pGrid, pSeq     float64
+	pNear, pObjNear float64
+	pEdgeLabel      float64
+	pSelfLoop       float64
+	p3d             float64
+	pFont           float64
+	maxKids         int
+	edgeFactor      float64
+	pRootGrid       float64
+	pLongLabel      float64
+	pGridExplicit   float64
+	pGridGap        float64
 	// calm: nothing that makes dagre's adjustCrossRankSpacing act on a nested shape (no label.near / icon.near /
 	// 3d / multiple below the top level, no horizontal directions, no container <-> descendant edges); used for
 	// half of the random diagrams so that diagrams outside the known-finding classes stay well represented
